@@ -102,8 +102,13 @@ class Run:
 
     def __init__(self, scenario, chooser, granularity="container", serialised=True, frag=None):
         import bits.p2p as p2p
+        global MAG
         self.p2p = p2p
-        p2p.set_magic_start_bytes("mainnet")
+        # the network the node runs on (chosen from the chunk seed; expected magic from the harness's own table): what the node ACCEPTS and
+        # what it SENDS must both be that network's
+        self.net = "mainnet" if frag is None else ["mainnet", "testnet", "regtest"][(frag // 3) % 3]
+        MAG = rp.MAGIC[self.net]
+        p2p.set_magic_start_bytes(self.net)
         self.scenario = scenario
         self.msgs = [[build_message(k, p, s) for s, k in enumerate(ks)] for p, ks in enumerate(scenario)]
         self.node = p2p.Node()
@@ -322,7 +327,7 @@ def gen_cases(tier, seed):
 
 def required(tier):
     return {"dfs.schedules": 500, "dfs.subtrees_exhausted": 40, "random.container.schedules": 5000, "random.line.schedules": 400,
-            "stress.runs": 100, "stress.long_messages": 5000, "points.container": 20000, "points.line": 10000, "class.interleaved_enqueue_dequeue_window": 500, "class.short_reads": 1000, "class.idle_timeouts_mid_stream": 300,
+            "stress.runs": 100, "stress.long_messages": 5000, "points.container": 20000, "points.line": 10000, "class.interleaved_enqueue_dequeue_window": 500, "class.short_reads": 1000, "net.testnet": 300, "net.regtest": 300, "class.idle_timeouts_mid_stream": 300,
             "set:schedules": 4000}
 
 
@@ -346,6 +351,7 @@ def _report(ctx, run, trace, scenario, gran, strategy):
     switches = sum(1 for a, b in zip(tids, tids[1:]) if a != b)
     if switches >= 2:
         ctx.count("class.interleaved_enqueue_dequeue_window")
+    ctx.count(f"net.{run.net}")
     if run.frag is not None:
         ctx.count("class.short_reads")
     tr = sum(s_.timeouts_raised for s_ in run.socks)
